@@ -9,15 +9,9 @@
 (* 64-bit magnitudes.                                                      *)
 (* A slice part is [p |-> present, v |-> integer].  Indices are 0-based.   *)
 (***************************************************************************)
-EXTENDS Integers, Sequences, FiniteSets
+EXTENDS Integers, Sequences, FiniteSets, SliceCap
 
-\* clamp an explicit bound
-Cap(len, x, step) ==
-  LET y == IF x < 0 THEN x + len ELSE x IN
-  IF y < 0 THEN (IF step < 0 THEN 0 - 1 ELSE 0)
-  ELSE IF y >= len THEN (IF step < 0 THEN len - 1 ELSE len)
-  ELSE y
-
+\* Cap (the clamp of an explicit bound) lives in SliceCap.tla, where TLAPS proves its properties for all integers
 StepOf(sl) == IF sl[3].p THEN sl[3].v ELSE 1
 StartOf(len, sl) == LET st == StepOf(sl) IN
   IF sl[1].p THEN Cap(len, sl[1].v, st) ELSE IF st < 0 THEN len - 1 ELSE 0
@@ -27,7 +21,7 @@ StopOf(len, sl) == LET st == StepOf(sl) IN
 \* the walk, as the sequence of visited 0-based indices (step # 0)
 RECURSIVE Walk(_, _, _)
 Walk(i, stop, step) ==
-  IF (step > 0 /\ i < stop) \/ (step < 0 /\ i > stop)
+  IF Visits(i, stop, step)
   THEN <<i>> \o Walk(i + step, stop, step) ELSE <<>>
 
 SliceIdx(len, sl) == Walk(StartOf(len, sl), StopOf(len, sl), StepOf(sl))
